@@ -2,6 +2,8 @@ package checks
 
 import (
 	"fmt"
+	"go/ast"
+	"go/token"
 	"go/types"
 	"sort"
 	"strings"
@@ -14,7 +16,7 @@ func init() {
 	register("C09", checkC09)
 	describe("C09", Meta{
 		Technique: "effect/ownership (confinement) analysis on go/ssa with interprocedural write summaries: every store, map update, append/copy and write-assumed external call on the simulation path is traced to the root of the written address (parameter, package-level variable, captured variable, fresh memory), resolving go/ssa's spilled value receivers",
-		Claim:     "Decides the confinement clauses of C09: (R1) every Opcode.Simulate implementation and its callees write only memory reachable from the *VM argument (not through vm.Mach) or fresh memory — never through the process-wide opcode singleton, a package-level variable or the Machine shared by processors; (R2) nothing reachable from the per-tick simulation entry points writes package-level state; (R3) the per-processor worker touches vm.Processors only at its own procId. A necessary condition for schedule- and co-simulation-independence; data races inside one VM between the stepping goroutines and the driver, and DelayDistribution randomness, are not decided.",
+		Claim:     "Decides the confinement clauses of C09: (R1) every Opcode.Simulate implementation and its callees write only memory reachable from the *VM argument (not through vm.Mach) or fresh memory — never through the process-wide opcode singleton, a package-level variable or the Machine shared by processors; (R2) nothing reachable from the per-tick simulation entry points writes package-level state; (R3) the per-processor worker touches vm.Processors only at its own procId; (R5) a loop that receives the workers' completion messages (a channel field several goroutines send on) builds no order-sensitive result (string concatenation, unsorted append) in arrival order. A necessary condition for schedule- and co-simulation-independence; data races inside one VM between the stepping goroutines and the driver, and DelayDistribution randomness, are not decided.",
 		Note:      "Calls through interfaces fan out to every implementation in the module; external (stdlib) methods with pointer receivers are assumed to write their receiver unless on a short read-only list; call results of module functions are mapped through a one-level return summary. Summaries are depth-bounded (8).",
 		DesignRef: "DESIGN.md §2 C09",
 	})
@@ -166,6 +168,9 @@ func checkC09(r *core.Run) {
 	// ---- R6: per-VM deferred instructions act on the VM they are executed for
 	deferredClosureConfinement(r, prog, "C09")
 
+	// ---- R5: arrival order of the workers' completion messages does not reach the reports
+	c09Arrival(r, prog)
+
 	// ---- R3: the worker only touches its own processor
 	for _, fn := range methodsNamed(prog, "pkg/bondmachine", "Processor_execute") {
 		fkey := core.SSAFuncKey(fn)
@@ -215,4 +220,117 @@ func checkC09(r *core.Run) {
 			r.OK("C09/WORKER", "C09/WORKER:"+fkey, prog.Pos(fn.Pos()), "worker touches vm.Processors only at procId and stores nothing else into the VM directly")
 		}
 	}
+}
+
+
+// c09Arrival (C09/ARRIVAL): a channel stored in a struct field on which several goroutines send
+// (the same field is handed, unindexed, to a function launched with `go` inside a loop, and that
+// function sends on it) delivers its messages in scheduler order. A loop that receives from that
+// field and, in the same iteration, builds an order-sensitive result (string concatenation, append
+// without a later sort) makes that result depend on the interleaving of the workers.
+func c09Arrival(r *core.Run, prog *core.Program) {
+	n := 0
+	for _, rel := range []string{"pkg/bondmachine", "pkg/procbuilder"} {
+		sp := prog.SSAPkg(rel)
+		pk := prog.Pkg(rel)
+		if sp == nil || pk == nil {
+			continue
+		}
+		// 1. multi-sender channel fields
+		multi := map[*types.Var]string{}
+		fieldOfLoad := func(v ssa.Value) *types.Var {
+			u, ok := stripConv(v).(*ssa.UnOp)
+			if !ok || u.Op != token.MUL {
+				return nil
+			}
+			fa, ok := u.X.(*ssa.FieldAddr)
+			if !ok {
+				return nil
+			}
+			return fieldOfAddr(fa)
+		}
+		var fns []*ssa.Function
+		for fn := range allFuncsOf(prog, sp) {
+			fns = append(fns, fn)
+		}
+		sort.Slice(fns, func(i, j int) bool { return fns[i].String() < fns[j].String() })
+		for _, fn := range fns {
+			for _, l := range launchesIn(prog, fn) {
+				if !blockInCycle(l.g.Block()) {
+					continue
+				}
+				for _, c := range l.callees {
+					if c.Blocks == nil {
+						continue
+					}
+					sum := summarizeGo(c)
+					act := l.actuals[c]
+					for si := range unionKeys(sum.sendLoop, sum.sendAfter) {
+						if si >= len(act) {
+							continue
+						}
+						if f := fieldOfLoad(act[si]); f != nil {
+							multi[f] = core.SSAFuncKey(c)
+						}
+					}
+				}
+			}
+		}
+		// 2. receiving loops with an order-sensitive accumulation
+		info := pk.TypesInfo
+		core.FuncDecls(pk, func(_ *ast.File, fd *ast.FuncDecl) {
+			k := 0
+			ast.Inspect(fd.Body, func(nd ast.Node) bool {
+				loop, ok := nd.(*ast.ForStmt)
+				if !ok {
+					return true
+				}
+				var recvF *types.Var
+				var recvPos token.Pos
+				ast.Inspect(loop.Body, func(m ast.Node) bool {
+					if u, ok := m.(*ast.UnaryExpr); ok && u.Op == token.ARROW {
+						if f := core.FieldOf(info, u.X); f != nil {
+							if _, isMulti := multi[f]; isMulti && recvF == nil {
+								recvF, recvPos = f, u.Pos()
+							}
+						}
+					}
+					return true
+				})
+				if recvF == nil {
+					return true
+				}
+				k++
+				n++
+				inst := fmt.Sprintf("C09/ARRIVAL:%s:loop%d:%s", core.FuncKey(pk, fd), k, recvF.Name())
+				what, wpos := "", token.NoPos
+				ast.Inspect(loop.Body, func(m ast.Node) bool {
+					as, ok := m.(*ast.AssignStmt)
+					if !ok || what != "" || len(as.Lhs) != 1 || len(as.Rhs) != 1 {
+						return true
+					}
+					t := info.TypeOf(as.Lhs[0])
+					if t == nil {
+						return true
+					}
+					if b, ok := t.Underlying().(*types.Basic); ok && b.Info()&types.IsString != 0 && as.Tok == token.ADD_ASSIGN {
+						what, wpos = "string concatenation into "+types.ExprString(as.Lhs[0]), as.Pos()
+					}
+					if call, ok := as.Rhs[0].(*ast.CallExpr); ok {
+						if id, ok := call.Fun.(*ast.Ident); ok && id.Name == "append" {
+							what, wpos = "append to "+types.ExprString(as.Lhs[0]), as.Pos()
+						}
+					}
+					return true
+				})
+				if what == "" {
+					r.OK("C09/ARRIVAL", inst, prog.Pos(recvPos), "messages of the workers are consumed without building an order-sensitive result")
+				} else {
+					r.Violation("C09/ARRIVAL", inst, prog.Pos(wpos), fmt.Sprintf("%s receives the completion messages of the per-processor workers (%s, one goroutine per processor, all sending on %s) in scheduler order and builds its report in that order (%s): two runs of the same simulation give differently ordered reports whenever more than one processor has something to report in a tick", core.FuncKey(pk, fd), multi[recvF], recvF.Name(), what))
+				}
+				return true
+			})
+		})
+	}
+	r.Count("multi_sender_receive_loops", n)
 }
